@@ -116,7 +116,23 @@ func c16Build(c c16Case, epoch time.Time, now func() time.Time) (apply func() (c
 					continue
 				}
 				if c.TickNS > 0 {
-					continue // with a ticking clock each option may legitimately come from its own reading
+					// with a ticking clock each option may legitimately come from its own, later reading: it still obeys what
+					// every reading obeys, and it cannot promise more than the option before it
+					pp := ra.Options[g*fan+i-1].(*ndp.PrefixInformation)
+					pr := ra.Options[2*fan+g*fan+i-1].(*ndp.RouteInformation)
+					switch {
+					case p.ValidLifetime < 0 || p.PreferredLifetime < 0 || r.RouteLifetime < 0:
+						return c16Reading{}, verifkit.Violf("C16/negative-lifetime", "option %d of %d of a wildcard stanza: negative lifetime %v/%v/%v", i+1, fan, p.ValidLifetime, p.PreferredLifetime, r.RouteLifetime)
+					case p.PreferredLifetime > p.ValidLifetime:
+						return c16Reading{}, verifkit.Violf("C16/preferred-exceeds-valid", "option %d of %d of a wildcard stanza with a ticking clock: preferred %v > valid %v", i+1, fan, p.PreferredLifetime, p.ValidLifetime)
+					case p.ValidLifetime > pp.ValidLifetime || p.PreferredLifetime > pp.PreferredLifetime || r.RouteLifetime > pr.RouteLifetime:
+						return c16Reading{}, verifkit.Violf("C16/lifetime-increased", "option %d of %d of a wildcard stanza (deprecated=%v) with a ticking clock carries %v/%v/%v, the option before it %v/%v/%v",
+							i+1, fan, g == 0, p.ValidLifetime, p.PreferredLifetime, r.RouteLifetime, pp.ValidLifetime, pp.PreferredLifetime, pr.RouteLifetime)
+					case g == 1 && (p.ValidLifetime != pis[g].ValidLifetime || p.PreferredLifetime != pis[g].PreferredLifetime || r.RouteLifetime != ris[g].RouteLifetime):
+						return c16Reading{}, verifkit.Violf("C16/non-deprecated-not-constant", "option %d of %d of a non-deprecated wildcard stanza carries %v/%v/%v, the first %v/%v/%v",
+							i+1, fan, p.ValidLifetime, p.PreferredLifetime, r.RouteLifetime, pis[g].ValidLifetime, pis[g].PreferredLifetime, ris[g].RouteLifetime)
+					}
+					continue
 				}
 				if p.ValidLifetime != pis[g].ValidLifetime || p.PreferredLifetime != pis[g].PreferredLifetime || r.RouteLifetime != ris[g].RouteLifetime {
 					return c16Reading{}, verifkit.Violf("C16/options-of-one-stanza-disagree", "option %d of %d of a wildcard stanza (deprecated=%v) carries %v/%v/%v, the first %v/%v/%v",
